@@ -82,6 +82,14 @@ func c12All(c *Check, P string) {
 	if !c.Floor(P+".O1", "handler calls in the retry closure (first attempt + retry)", len(m.HCalls), 2) {
 		return
 	}
+	// Retry leaves the consumed message as it is: it sets no context on it (the time-limit context is Retry's own and is
+	// cancelled when Retry returns — a message that carries it is dead for whoever handles it next)
+	for _, f := range WithAnon(I) {
+		for _, s := range CallsTo(f, nSetContext) {
+			c.Report(false, P+".O4", "RETRY-SETS-NO-MESSAGE-CONTEXT", f, s.Pos(), "SetContext", "Retry never replaces the context of a message: its MaxElapsedTime context bounds its own waiting only")
+		}
+	}
+	MiddlewareStatePerCall(c, P+".O1", "Retry", m)
 	var inLoop, outLoop []ssa.CallInstruction
 	for _, hc := range m.HCalls {
 		c.Report(hc.Parent() == I && len(hc.Common().Args) == 1 && m.IsMsg(hc.Common().Args[0]), P+".O1", "HANDLER-ARG", I, hc.Pos(), "handler call", "the handler is (re-)invoked on the consumed message, in the middleware's own goroutine")
@@ -731,4 +739,49 @@ func c12FindWaits(I *ssa.Function) []c12Wait {
 		}
 	})
 	return out
+}
+
+// MiddlewareStatePerCall: what the per-message closure of a middleware writes is made by that call: it updates no map
+// that was built once when the middleware was constructed and is captured by the closure (messages are handled concurrently,
+// and each invocation of the closure would write the same map).
+func MiddlewareStatePerCall(c *Check, id, name string, m *MW) {
+	I := m.Inner
+	nest := map[*ssa.Function]bool{}
+	for _, f := range WithAnon(I) {
+		nest[f] = true
+	}
+	n := 0
+	for f := range nest {
+		AllInstrs(f, func(in ssa.Instruction) {
+			var mp ssa.Value
+			switch x := in.(type) {
+			case *ssa.MapUpdate:
+				mp = x.Map
+			case ssa.CallInstruction:
+				for _, b := range []string{"delete", "clear"} {
+					if args, ok := IsBuiltinCall(valueOfCall(x), b); ok && len(args) > 0 {
+						mp = args[0]
+					}
+				}
+			}
+			if mp == nil {
+				return
+			}
+			n++
+			for _, o := range Origins(mp) {
+				if mk, isMk := o.(*ssa.MakeMap); isMk && !nest[mk.Parent()] && !nest[HomeFn(mk.Parent())] && !nest[outermostLit(HomeFn(mk.Parent()), nest)] {
+					c.Report(false, id, "MIDDLEWARE-STATE-PER-CALL", f, in.Pos(), name+": write to a map made outside the per-message closure", "the per-message closure writes no map that was made once when the middleware was built (concurrent messages would share it)")
+				}
+			}
+		})
+	}
+	c.Report(true, id, "MIDDLEWARE-MAP-WRITES-SCANNED", I, I.Pos(), name, fmt.Sprintf("%d map writes in the per-message closure examined", n))
+}
+
+// outermostLit walks up the enclosing functions of f until one of them is in set (or the top is reached).
+func outermostLit(f *ssa.Function, set map[*ssa.Function]bool) *ssa.Function {
+	for f != nil && !set[f] && f.Parent() != nil {
+		f = f.Parent()
+	}
+	return f
 }
